@@ -11,6 +11,26 @@ CLAIMED = {
     text='Bounded symbolic model checking: both real comparators are executed symbolically for every vector length in the bound and folded into one ite term; definition equivalence with a textbook oracle, range, irreflexivity, antisymmetry, transitivity, epsilon/Pareto agreement and duplicate rejection are SMT queries answered unsat for ALL real-valued vectors of that length and all markers. Right level: the laws are universally quantified over values, which the solver covers completely; only the length is bounded.',
     note='floats modelled as reals (exact for order comparisons; epsilon scaling exact only up to rounding of adjacent quotients); NaN/inf and epsilon=0 outside; vector length m<=4 quick / m<=6 thorough; z3 trusted',
     ref='DESIGN.md section 5 C01'),
+ 'C02': dict(
+    text='Bounded symbolic model checking of the real sorter: n individuals with solver-variable cost vectors; every feasible path of fast_nondominated_sorting is explored and on each the front numbers are proved (unsat) to satisfy the declarative rank relation written with the textbook dominance relation. Because the individuals are interchangeable variables this covers every input order, tie, duplicate and chain of populations up to the size bound.',
+    note='n<=4 (m<=2) quick, n<=6/m<=3 thorough; crowding_distance calls stubbed except in *-crowd configurations; comparator used through a summary validated against the real method; floats as reals (exact: only comparisons)',
+    ref='DESIGN.md section 5 C02'),
+ 'C03': dict(
+    text='Bounded symbolic model checking of crowding_distance (closed-form oracle with ite terms, all orders through forking in list.sort), nondominated_truncate/nondominated_cmp (real set()/hash path on concrete designs, symbolic ranks, crowding values and k) and TournamentSelector.select (random.sample/choice as symbolic choices). Every obligation is unsat for all values within the size bounds.',
+    note='front sizes n<=4 quick / n<=5 thorough; interior formula in the reals (doubles: rounding error, replays compare at 1e-9); random stubs by contract',
+    ref='DESIGN.md section 5 C03'),
+ 'C04': dict(
+    text='One inductive step of the real Archive.add from an ARBITRARY invariant-satisfying archive (symbolic members, arbitrary new solution) proves post-state = ND(S u {x}), return value and invariant preservation for all values; bounded histories from the empty archive (incl. extend/+=/append and reversed order) guard the invariant; truncate with symbolic features and size. Induction lifts the step to histories of any length for archives up to the size bound.',
+    note='step n<=4 quick / n<=6 thorough, m<=3; Pareto and epsilon comparator (fixed positive epsilon lists) through summaries; floats as reals',
+    ref='DESIGN.md section 5 C04'),
+ 'C05': dict(
+    text='Symbolic execution of Job.evaluate / Evaluator / Algorithm.evaluate / calc_signed_costs / SweepAlgorithm.run / evaluate_scalar (also through ScipyOpt.run and NLopt._function) with an uninterpreted objective and constraints: call counts, call order, stored costs, signs, rounding, marker and marker ordering are SMT obligations over all design vectors, all objective values, every initial-state mix and every minimise/maximise assignment in the bound.',
+    note='batches <=2 quick / <=3 thorough, <=2 objectives, <=2 constraints; objective in Ackermann form; np.round by contract (ROUND7); SciPy/NLopt optimisers themselves replaced by an arbitrary query sequence',
+    ref='DESIGN.md section 5 C05'),
+ 'C06': dict(
+    text='Symbolic execution of the real retry loop with a solver-chosen fault at every objective call: all 4^k patterns of up to 5 calls of one design (including exactly four and exactly five consecutive failures, witnessed) and batches; replacement designs come from the real gen_vector/gen_number with random() symbolic. Failed-list contents, final costs/vector/state, exception propagation and the in-bounds clause are SMT obligations per path.',
+    note='one design all patterns; batches of 2 (<=3 faults quick, all thorough); round() modelled as nearest integer (superset of half-even); failures in worker threads outside',
+    ref='DESIGN.md section 5 C06'),
 }
 
 NOT_APPLICABLE = {
